@@ -1233,6 +1233,25 @@ def check_encoder_branch_offsets(ctx, rep, RULE):
             if isinstance(st, ast.AugAssign) and isinstance(st.op, ast.Add) and isinstance(st.target, ast.Attribute) and st.target.attr == "index" \
                     and elem(st.target.value):
                 shifts.append((lp, lo, hi, st.value))
+    no_shift = False
+    if not shifts and len(rec) == 1:
+        # no shift at all: sound to judge only when nothing else touches the filed entries (no store to an entry's index, no
+        # replacement of elements or of the list): then the positions the recursive call filed are final
+        touched = False
+        for g in scopes:
+            for n in own_nodes(g.node):
+                if isinstance(n, ast.Attribute) and n.attr == "index" and isinstance(n.ctx, (ast.Store, ast.Del)):
+                    touched = True
+                if isinstance(n, ast.Subscript) and isinstance(n.ctx, (ast.Store, ast.Del)) and isinstance(n.value, ast.Name) and n.value.id == M:
+                    touched = True
+                if isinstance(n, ast.Name) and n.id == M and isinstance(n.ctx, ast.Store):
+                    touched = True
+                if isinstance(n, ast.Call) and unparse(n.func).split(".")[-1] in ("replace", "setattr", "_replace"):
+                    touched = True
+        if touched:
+            return undecided("no shift loop, but entries are rewritten some other way")
+        no_shift = True
+        shifts = [(None, None, None, ast.Constant(value=0))]
     if len(shifts) != 1 or len(rec) != 1:
         return undecided("%d shift loop(s) over the entry list, %d recursive call(s)" % (len(shifts), len(rec)))
     lp, lo, hi, K = shifts[0]
@@ -1297,6 +1316,11 @@ def check_encoder_branch_offsets(ctx, rep, RULE):
         probs.append("offset passed to the recursive call (%s) + shift (%s) is not own offset + len(%s) + 1 + len(%s): the entries of a branch "
                      "inside a branch (or inside a later fragment) carry positions of other symbols"
                      % (unparse(arg) if arg is not None else "default", unparse(K), D, Q))
+    if no_shift:
+        rep.ob(RULE, not probs, call, F, construct="recursive call of %s, entries never shifted" % F.name,
+               how="offset == own offset + len(symbols) + 1 + len(index symbols) (the entries the call files are final)",
+               witness="; ".join(probs) or None, nontrivial=True, key="enc-branch-offset/" + ("ok" if not probs else probs[0][:30]))
+        return
     # ---- b / c: when the bounds are measured
     lo_n = lo.id if isinstance(lo, ast.Name) else None
     hi_n = hi.id if isinstance(hi, ast.Name) else None
